@@ -33,14 +33,20 @@ ID = "C16"
 LEVEL = "proof"
 ENGINES = ["lean-model", "purediff"]
 LEVEL_TEXT = (
-    "Lean theorems for ALL handler ids / records / bodies / patches about an executable model of key forming "
-    "(safe key, v1/v2 cut, hash suffix as a parameter, ReplicaSet-of-Deployment marking) and of "
-    "store/fetch/purge/touch/clear of the annotations, status, Multi/Smart progress storages and the diff-base "
-    "storages over RFC 7386 merge-patches: roundtrip_ann / roundtrip_status / roundtrip_smart / roundtrip_diffbase, "
-    "purge_complete, isolation (store, purge, merge; other prefixes, user data), deterministic, "
-    "valid_name_v2 / valid_name_v1 under explicit decidable hypotheses, distinct; witness theorems show every "
-    "hypothesis is necessary (they are the open findings F6, F6b-F6f). The model is tied to the real storages by a "
-    "differential run on every check; an independent Python oracle decides violations."
+    "Lean theorems for ALL handler ids / records / bodies / accumulated patches about an executable model of key forming "
+    "(safe key, v1/v2 cut, hash suffix as a parameter, ReplicaSet-of-Deployment marking) and of store/fetch/purge/touch/clear "
+    "of the annotations and status storages, of arbitrary Multi storage TREES (proved equal to their flattening: tree_ops_flat) "
+    "and of the diff-base storages over RFC 7386 merge-patches. FULL: round trip (roundtrip_ann/_status/_status_fresh/_smart/"
+    "_diffbase/_diffbase_status, roundtrip_multi/_multi_apart/_multi_status_head/_dmulti/_dmulti_status_head), complete purge "
+    "(purge_complete_ann/_status/_smart/_multi), path-level isolation of store/purge/touch, user data and other prefixes "
+    "(foreign_annotation_untouched, other_prefix_untouched), clear, and stability of the names under everything a cycle changes "
+    "(names_depend_on_kind_and_owners, names_stable). PARTIAL (the clause is false of the code; exact guards, full statement "
+    "in a comment, witnesses = open findings): valid_name_v2_partial / valid_name_v1_partial (guards EdgeAlnum = F6, room for "
+    "one character = F6c), distinct_partial / distinct_short_partial (guards: digests differ = F6b, safe forms differ = F6d; "
+    "forged ids F6e), id-level isolation only for v1=False (isolation_ids_short/_long; for v1=True refuted by "
+    "v1_negative_cut_witness = F6f). 'Identical across restarts' is carried by the tie/oracle (fresh object, fresh interpreter "
+    "with another hash seed, golden names), not by a theorem. The model is tied to the real storages by a differential run "
+    "on every check; an independent Python oracle decides violations."
 )
 TIE = "D: real storages (real constructors) vs. Lean driver on generated scenarios; hash suffixes passed in from the real make_suffix"
 THEOREMS = [
@@ -50,26 +56,37 @@ THEOREMS = [
     ("Kopf.Props.C16", "Kopf.C16.roundtrip_smart"),
     ("Kopf.Props.C16", "Kopf.C16.roundtrip_diffbase"),
     ("Kopf.Props.C16", "Kopf.C16.roundtrip_diffbase_status"),
+    ("Kopf.Props.C16", "Kopf.C16.tree_ops_flat"),
+    ("Kopf.Props.C16", "Kopf.C16.dtree_ops_flat"),
+    ("Kopf.Props.C16", "Kopf.C16.roundtrip_multi"),
+    ("Kopf.Props.C16", "Kopf.C16.roundtrip_multi_apart"),
+    ("Kopf.Props.C16", "Kopf.C16.roundtrip_multi_status_head"),
+    ("Kopf.Props.C16", "Kopf.C16.roundtrip_dmulti"),
+    ("Kopf.Props.C16", "Kopf.C16.roundtrip_dmulti_status_head"),
     ("Kopf.Props.C16", "Kopf.C16.purge_complete_ann"),
     ("Kopf.Props.C16", "Kopf.C16.purge_complete_status"),
     ("Kopf.Props.C16", "Kopf.C16.purge_complete_smart"),
+    ("Kopf.Props.C16", "Kopf.C16.purge_complete_multi"),
     ("Kopf.Props.C16", "Kopf.C16.isolation_store_ann"),
     ("Kopf.Props.C16", "Kopf.C16.isolation_purge_ann"),
     ("Kopf.Props.C16", "Kopf.C16.isolation_store_status"),
     ("Kopf.Props.C16", "Kopf.C16.isolation_purge_status"),
     ("Kopf.Props.C16", "Kopf.C16.isolation_touch_ann"),
-    ("Kopf.Props.C16", "Kopf.C16.isolation_fetch"),
     ("Kopf.Props.C16", "Kopf.C16.isolation_other_handler"),
-    ("Kopf.Props.C16", "Kopf.C16.other_prefix_disjoint"),
-    ("Kopf.Props.C16", "Kopf.C16.own_names_under_prefix"),
+    ("Kopf.Props.C16", "Kopf.C16.isolation_other_handler_purge"),
+    ("Kopf.Props.C16", "Kopf.C16.isolation_ids_short"),
+    ("Kopf.Props.C16", "Kopf.C16.isolation_ids_long"),
+    ("Kopf.Props.C16", "Kopf.C16.foreign_annotation_untouched"),
+    ("Kopf.Props.C16", "Kopf.C16.other_prefix_untouched"),
     ("Kopf.Props.C16", "Kopf.C16.clear_removes_own"),
     ("Kopf.Props.C16", "Kopf.C16.clear_keeps_foreign"),
-    ("Kopf.Props.C16", "Kopf.C16.deterministic"),
-    ("Kopf.Props.C16", "Kopf.C16.valid_name_v2"),
-    ("Kopf.Props.C16", "Kopf.C16.valid_name_v1"),
+    ("Kopf.Props.C16", "Kopf.C16.names_depend_on_kind_and_owners"),
+    ("Kopf.Props.C16", "Kopf.C16.names_stable"),
+    ("Kopf.Props.C16", "Kopf.C16.valid_name_v2_partial"),
+    ("Kopf.Props.C16", "Kopf.C16.valid_name_v1_partial"),
     ("Kopf.Props.C16", "Kopf.C16.valid_name_marked"),
-    ("Kopf.Props.C16", "Kopf.C16.distinct"),
-    ("Kopf.Props.C16", "Kopf.C16.distinct_short"),
+    ("Kopf.Props.C16", "Kopf.C16.distinct_partial"),
+    ("Kopf.Props.C16", "Kopf.C16.distinct_short_partial"),
     ("Kopf.Props.C16", "Kopf.C16.edge_witness"),
     ("Kopf.Props.C16", "Kopf.C16.edge_witness_front"),
     ("Kopf.Props.C16", "Kopf.C16.sfx_witness"),
@@ -80,7 +97,7 @@ THEOREMS = [
     ("Kopf.Props.C16", "Kopf.C16.forged_witness"),
     ("Kopf.Props.C16", "Kopf.C16.status_cover_witness"),
 ]
-RULE = ("scenario = storage configuration (Annotations/Status/Smart/Multi incl. nested, prefix from default / "
+RULE = ("scenario = storage configuration (Annotations/Status/Smart/Multi as TREES: nested and empty Multis, status-headed and annotation-headed, sent to the model as trees, prefix from default / "
         "my-op.example.com / short / long-ish / 54..189 chars, v1 on/off, verbose, custom touch key / fields) x handler id over "
         "[A-Za-z0-9_./<>-]{1,300} (length bands around 63-|prefix|-1, 56, 63 with +-2, sub-handler paths, field suffixes, "
         "<locals> qualnames, special first/last characters, reserved names) x record (unicode, nulls, partial, empty) x body "
@@ -100,7 +117,13 @@ ASSUMPTIONS = [
     "a status-stored record is written over an older record of the same handler only with a key set covering the old one "
     "(kopf always writes all nine ProgressRecord keys); Lean witness `status_cover_witness` shows the need",
     "records and essences contain no floats (modelling limit of Kopf.J)",
-    "a Multi storage is modelled as the flat list of its leaves",
+    "the API server applies the patch as a plain RFC 7386 merge: structural-schema pruning of unknown status fields "
+    "(CRDs without x-kubernetes-preserve-unknown-fields) would drop a status-stored record — environment assumption",
+    "json.dumps/json.loads: the theorems use only the instance loads(dumps(x)) = x at the value written; no injective codec is "
+    "constructed in Lean (CPython's json is exercised by the tie)",
+    "id-level isolation for v1=True is not a theorem (refuted for prefixes of 56+ chars: F6f); the oracle checks it on every scenario",
+    "a Multi storage headed by a no-write status storage would read stale status records first (not a shipped configuration: "
+    "Smart puts the annotations first); roundtrip_multi* require a writing head",
 ]
 
 ALPHABET = "ABCDEFGHIJKLMNOPQRSTUVWXYZabcdefghijklmnopqrstuvwxyz0123456789_./<>-"
@@ -680,6 +703,7 @@ def gen_scenario(rng) -> dict:
     if rng.random() < 0.25:
         # an older record of the same handler: same key set as the new one (kopf writes all keys)
         old = [[kk, rng.choice([None, "old", 1, True])] for kk, _ in rec]
+    legacy = [[kk, rng.choice(["legacy", 0, False])] for kk, _ in rec[:3]] if (shape in ("smart", "nested") and rng.random() < 0.35) else None
     corrupt = None
     if rng.random() < 0.06:
         corrupt = rng.choice(["ann-not-json", "ann-json-null", "ann-json-scalar", "ann-number", "status-progress-str",
@@ -692,7 +716,7 @@ def gen_scenario(rng) -> dict:
     return {"storage": spec, "shape": shape, "id": k, "idshape": idshape, "band": band, "body": body, "flags": flags,
             "others": others, "other_kinds": other_kinds,
             "other_records": [gen_record(rng)[0] for _ in others], "record": rec, "rkind": rkind, "old": old,
-            "corrupt": corrupt, "prior": prior, "touch": rng.choice([None, "2020-12-31T23:59:59.000001", "значение", ""]),
+            "corrupt": corrupt, "legacy": legacy, "prior": prior, "touch": rng.choice([None, "2020-12-31T23:59:59.000001", "значение", ""]),
             "dstorage": dspec, "essence": essence}
 
 
@@ -854,6 +878,12 @@ def run_scenario(sc: dict, out: Out, with_driver: bool = True) -> None:
         p = new_patch()
         call(S.store, key=k, record=rec_dict(sc["old"]), body=Body(body0), patch=p)
         body0 = merge_patch(body0, jsonable(dict(p)))
+    if sc.get("legacy") is not None:
+        # a record left in the status stanza by an older kopf (what Smart's read-and-purge-only status leaf is for)
+        for leaf in status_leaves:
+            if isinstance(leaf, progress.NoWriteStatusProgressStorage):
+                set_path(body0, list(leaf.field) + [k], rec_dict(sc["legacy"]))
+                tags["legacy"] = True
     corrupt = sc.get("corrupt")
     patch0: dict = {}
     if corrupt:
@@ -1216,7 +1246,7 @@ def process(scs: list[dict], with_driver: bool) -> dict:
         res["evaluations"] += 1
         if nontrivial:
             res["keys"].append(key)
-        for g in ("shape", "band", "idshape", "rkind", "drs", "corrupt", "hashed", "twokeys", "others"):
+        for g in ("shape", "band", "idshape", "rkind", "drs", "corrupt", "hashed", "twokeys", "others", "legacy"):
             count(g, out.tags.get(g))
         count("id_length", "%03d-%03d" % (len(sc["id"]) // 20 * 20, len(sc["id"]) // 20 * 20 + 19))
         count("id_edges", ("alnum" if sc["id"][0] in ALNUM else "special") + "/" + ("alnum" if sc["id"][-1] in ALNUM else "special"))
@@ -1321,6 +1351,8 @@ def run_case(ctx: Ctx, data: dict, with_driver: bool = True) -> None:
         pair_case(ctx, data)
     elif kind == "golden":
         golden_case(ctx, data)
+    elif kind == "status-cover":
+        status_cover_case(ctx, data)
     else:
         raise ValueError(f"unknown corpus/replay kind {kind!r}")
 
@@ -1397,6 +1429,30 @@ def golden_case(ctx: Ctx, data: dict) -> None:
             ctx.oracle_fail(f"annotation names of {k!r} changed: recorded {names}, now {got}",
                             {"kind": "golden", "names": [[prefix, v1, drs, k, names]]},
                             {"site": "make_keys", "shape": "recorded annotation names changed (persisted state would be orphaned)"})
+
+
+def status_cover_case(ctx: Ctx, data: dict) -> None:
+    """Replay of the Lean `status_cover_witness` on the real StatusProgressStorage: a record stored over an
+    older record with other keys reads back MERGED (RFC 7386). Not a defect (kopf always writes all keys);
+    it shows the covering hypothesis of `roundtrip_status` is about the real code."""
+    _, progress, _, bodies, patches = _kopf()
+    s = progress.StatusProgressStorage()
+    body = {"status": {"kopf": {"progress": {data["id"]: dict(data["old"])}}}}
+    p = patches.Patch()
+    s.store(key=data["id"], record=dict(data["new"]), body=bodies.Body(body), patch=p)
+    merged = merge_patch(body, jsonable(dict(p)))
+    got = s.fetch(key=data["id"], body=bodies.Body(merged))
+    ctx.case(key={"status-cover": data["id"]}, nontrivial=True)
+    ctx.count("corpus", "status-cover")
+    want = {**data["old"], **{k: v for k, v in data["new"].items() if v is not None}}
+    if got != want or got == {k: v for k, v in data["new"].items() if v is not None}:
+        ctx.tie_fail("status storage no longer merges a record over an older one as the model (and the witness theorem) says",
+                     {"kind": "status-cover", **{x: data[x] for x in data if x != "kind"}, "got": got})
+    desc = describe_tree(s)
+    outs = ctx.driver.ask([["C16.store", desc, sfx_table([data["id"]]), body, {}, data["id"], [[k, v] for k, v in data["new"].items()]],
+                           ["C16.fetch", desc, sfx_table([data["id"]]), merged, data["id"]]])
+    ctx.compare("C16 store", ["ok", jsonable(dict(p))], outs[0], data)
+    ctx.compare("C16 fetch", ["ok", got], outs[1], data)
 
 
 def restart_check(ctx: Ctx, n: int) -> None:
